@@ -533,4 +533,49 @@ theorem Buf.bitGet_abs {b : Buf} {xs : List Nat} (h : b.Abs xs) (x : BitArg) :
     have hx : xs.getD i 0 = xs[i] := by simp [List.getD, hi]
     rw [hx]
 
+/-! ### array/join -/
+
+/-- on indexed parts only, array/join is array/concat -/
+theorem Arr.join_eq_concat (ps : List Part) (hno : ∀ p ∈ ps, ∀ v, p ≠ .one v) : ∀ a : Arr, a.join ps = a.concat ps := by
+  induction ps with
+  | nil => intro a; rfl
+  | cons p rest ih =>
+    intro a
+    have ih' := ih (fun q hq => hno q (by simp [hq]))
+    unfold Arr.join Arr.concat
+    cases p with
+    | one v => exact absurd rfl (hno (.one v) (by simp) v)
+    | many vs => simp only []; cases (a.pushAll vs).2 <;> simp only [ih']
+    | other vs sn =>
+      simp only []
+      generalize (if (a.isNull && sn) = true then
+          match a.ensure (↑a.count + ↑a.count) 2 with
+          | none => (a, Outcome.oom)
+          | some a' => a'.pushAll a.items
+        else a.pushAll vs) = r
+      cases r.2 <;> simp only [ih']
+    | self =>
+      simp only []
+      generalize (match a.ensure (↑a.count + ↑a.count) 2 with
+          | none => (a, Outcome.oom)
+          | some a' => a'.pushAll a.items) = r
+      cases r.2 <;> simp only [ih']
+
+/-- **array/join**: all parts indexed ⇒ the same result as array/concat ... -/
+theorem Arr.join_abs (ps : List SPart) (hno : ∀ p ∈ ps, ∀ v, p ≠ SPart.one v) {a : Arr} {xs : List Val} (h : a.Abs xs)
+    (hb : ((specConcat xs ps).length : Int) ≤ i32max) :
+    (a.join (ps.map SPart.toPart)).2 = .ok ∧ (a.join (ps.map SPart.toPart)).1.Abs (specConcat xs ps) := by
+  rw [Arr.join_eq_concat]
+  · exact Arr.concat_abs ps h hb
+  · intro p hp v hv
+    obtain ⟨q, hq, hqp⟩ := List.mem_map.mp hp
+    cases q with
+    | one w => exact hno (.one w) hq w rfl
+    | many ys => rw [← hqp] at hv; cases hv
+    | self => rw [← hqp] at hv; cases hv
+
+/-- ... and a non-indexed first part raises the error with the array unchanged -/
+theorem Arr.join_err (a : Arr) (v : Val) (ps : List Part) : a.join (.one v :: ps) = (a, .err) := by
+  unfold Arr.join; rfl
+
 end JanetModel.Seq
